@@ -41,9 +41,13 @@ pub fn own_select_guarded(ch: &Chooser) {
 /// `DfsCfg` for one configuration: deviation bound, at most 20000 executions, and no execution
 /// started after the check's deadline.
 pub fn dfs_cfg(max_dev: usize, deadline: std::time::Instant) -> explorer::DfsCfg {
+    dfs_cfg_n(max_dev, deadline, 20_000)
+}
+
+pub fn dfs_cfg_n(max_dev: usize, deadline: std::time::Instant, max_execs: u64) -> explorer::DfsCfg {
     explorer::DfsCfg {
         max_dev,
-        max_execs: 20_000,
+        max_execs,
         wall: deadline.saturating_duration_since(std::time::Instant::now()) + std::time::Duration::from_millis(200),
         threads: 1,
     }
